@@ -38,7 +38,7 @@ def tlc_scenarios(work, n, depth, seed_, overrides=None):
     with open(os.path.join(sdir, name), "w") as fh:
         fh.write(cfg)
     r = vlib.tlc(work, "Gen_Processor", name, workers=1,
-                 args=["-simulate", "num=%d" % n, "-depth", str(depth), "-seed", str(seed_)], timeout=600)
+                 args=["-simulate", "num=%d" % n, "-depth", str(depth + 2), "-seed", str(seed_)], timeout=600)
     hs = vlib.tlc_prints(r["out"], "SCN")
     if not hs:
         raise vlib.Broken("TLC simulation produced no scenarios:\n" + r["out"][-2000:])
@@ -241,12 +241,18 @@ class Gen:
             steps.append(self.obs("d2", r.choice(members)))
         if plan == "late" and n > 0:
             steps.append(self.vaa("d1", bodies, A, sorted(r.sample(range(n), need))))
-        # ticks
-        for _ in range(r.randrange(3, 14)):
+        # ticks; in some histories the store stops answering at some point
+        down_at = r.randrange(0, 10) if r.random() < 0.2 else -1
+        for i in range(r.randrange(3, 14)):
+            if i == down_at:
+                steps.append({"ev": "StoreDown", "a": {"x": 0}})
+                down_at = -2
             if r.random() < 0.75:
                 k = r.choice([1, 29, 30, 31, 60, 269, 270, 299, 300, 301, 330, 600, 3599, 3600, 3601, 7200, 36000, 432000])
                 steps.append({"ev": "Advance", "a": {"k": k}})
             steps.append({"ev": "CleanupTick", "a": {"x": 0}})
+            if down_at == -2:
+                continue
             if r.random() < 0.1 and members:
                 steps.append(self.obs(r.choice(["d1", "d2", "d3"]), r.choice(members)))
             if r.random() < 0.05:
@@ -504,17 +510,20 @@ def attribute(rej, line):
         return props, comps
     if ev in ("CleanupTick", "Advance") or "agg-retry" in comps:
         props.add("C14")
+    invalid_obs = False
     if ev == "Observation":
         o = line["a"]["o"]
-        invalid = o["signer"] in ("ERR", "JUNK") or o["signer"] != o["claimed"] or o["over"] != o["d"]
-        if invalid:
+        invalid_obs = o["signer"] in ("ERR", "JUNK") or o["signer"] != o["claimed"] or o["over"] != o["d"]
+        if invalid_obs:
             props.add("C03")
-    if comps & {"db", "out-vaa"}:
+    # C01 speaks about what is stored / broadcast and about the state those decisions are made from:
+    # the guardian-set snapshot, the node's own VAA, the recorded signers, the current set; and about
+    # every step of the inbound-VAA path.
+    if ev == "InboundVAA" or comps & {"db", "out-vaa", "agg-snap", "agg-our", "agg-sigs", "gs"}:
         props.add("C01")
-    if ev != "CleanupTick" and comps & {"out-kinds", "out-vaa", "out-other", "agg-submitted", "loop", "agg-our", "agg-snap",
-                                        "agg-keys", "agg-sigs", "not-enabled", "gs", "unknown", "db"}:
-        if not (props & {"C03"}):
-            props.add("C02")
+    # C02 speaks about when and what the node publishes and signs.
+    if ev not in ("CleanupTick", "Advance", "InboundVAA") and not invalid_obs:
+        props.add("C02")
     if ev == "INVARIANT":
         props |= {"C01", "C02"}
     if not props:
